@@ -511,9 +511,32 @@ pub fn build
     let mut channel_pack = ChannelPack::new(get_nodes(&system, params.rulefile_paths, params.goal_target_opt)?);
     let mut handles = Vec::new();
 
-    for (leaf, sender_vec) in channel_pack.leaves.drain(..)
+    /*  Take what is remembered about every file this build handles out of current_file_states and
+        save the rest before any thread starts.  Once a thread has replaced a target (recovered an
+        older file from the cache, say) the remembered state of that path describes a file that is
+        no longer there, so it must not survive on disk if we are interrupted before the final
+        to_file() below.  A path with no remembered state is simply hashed again. */
+    let mut leaf_blobs = Vec::new();
+    for (leaf, _sender_vec) in channel_pack.leaves.iter()
     {
-        let blob = elements.current_file_states.take_blob(vec![leaf.clone()]);
+        leaf_blobs.push(elements.current_file_states.take_blob(vec![leaf.clone()]));
+    }
+
+    let mut node_blobs = Vec::new();
+    for (node, _sender_vec, _receiver_vec) in channel_pack.nodes.iter_mut()
+    {
+        let temp_targets = std::mem::take(&mut node.targets);
+        node_blobs.push(elements.current_file_states.take_blob(temp_targets));
+    }
+
+    match elements.current_file_states.to_file()
+    {
+        Ok(_) => {},
+        Err(_) => printer.error("Error writing history"),
+    }
+
+    for ((_leaf, sender_vec), blob) in channel_pack.leaves.drain(..).zip(leaf_blobs.into_iter())
+    {
         let system_clone = system.clone();
         handles.push(
             (
@@ -554,12 +577,8 @@ pub fn build
         )
     }
 
-    for (mut node, sender_vec, receiver_vec) in channel_pack.nodes.drain(..)
+    for ((node, sender_vec, receiver_vec), blob) in channel_pack.nodes.drain(..).zip(node_blobs.into_iter())
     {
-        let temp_targets = node.targets;
-        node.targets = vec![];
-        let blob = elements.current_file_states.take_blob(temp_targets);
-
         let mut downloader_cache_urls = Vec::new();
         let mut downloader_history_urls = Vec::new();
 
